@@ -31,24 +31,41 @@ import (
 	"github.com/google/pprof/profile"
 )
 
+// c19Flags: a plugin.FlagSet whose values come from a map (flag name → text).  A flag that is not
+// in the map keeps the default pprof passes in — for option flags that is the CURRENT value of the
+// process-wide configuration, so a test that sets an option must reset it explicitly afterwards.
 type c19Flags struct {
-	bools   map[string]bool
-	strings map[string]string
-	args    []string
+	vals map[string]string
+	args []string
 }
 
 func (c19Flags) ExtraUsage() string      { return "" }
 func (c19Flags) AddExtraUsage(eu string) {}
 func (f c19Flags) Bool(s string, d bool, c string) *bool {
-	if b, ok := f.bools[s]; ok {
+	if t, ok := f.vals[s]; ok {
+		b := t == "true"
 		return &b
 	}
 	return &d
 }
-func (f c19Flags) Int(s string, d int, c string) *int             { return &d }
-func (f c19Flags) Float64(s string, d float64, c string) *float64 { return &d }
+func (f c19Flags) Int(s string, d int, c string) *int {
+	if t, ok := f.vals[s]; ok {
+		if n, err := strconv.Atoi(t); err == nil {
+			return &n
+		}
+	}
+	return &d
+}
+func (f c19Flags) Float64(s string, d float64, c string) *float64 {
+	if t, ok := f.vals[s]; ok {
+		if v, err := strconv.ParseFloat(t, 64); err == nil {
+			return &v
+		}
+	}
+	return &d
+}
 func (f c19Flags) String(s, d, c string) *string {
-	if t, ok := f.strings[s]; ok {
+	if t, ok := f.vals[s]; ok {
 		return &t
 	}
 	return &d
@@ -116,7 +133,14 @@ type c19Server struct {
 
 // c19NewServer starts the web interface the way `pprof -http` does. XDG_CONFIG_HOME is process
 // wide, so servers are created one after another (each keeps the path it was created with).
-func c19NewServer(xdg string) (*c19Server, error) {
+func c19NewServer(xdg string) (*c19Server, error) { return c19NewServerFlags(xdg, nil) }
+
+// c19NewServerFlags: additionally passes option flags (e.g. tagroot=x) on the "command line".
+func c19NewServerFlags(xdg string, opts map[string]string) (*c19Server, error) {
+	vals := map[string]string{"no_browser": "true", "http": "localhost:1234"}
+	for k, v := range opts {
+		vals[k] = v
+	}
 	if err := os.MkdirAll(xdg, 0o755); err != nil {
 		return nil, err
 	}
@@ -125,11 +149,7 @@ func c19NewServer(xdg string) (*c19Server, error) {
 	var err error
 	pn := c19Safely(func() {
 		err = driver.PProf(&plugin.Options{
-			Flagset: c19Flags{
-				bools:   map[string]bool{"no_browser": true},
-				strings: map[string]string{"http": "localhost:1234"},
-				args:    []string{"c19-profile"},
-			},
+			Flagset: c19Flags{vals: vals, args: []string{"c19-profile"}},
 			Fetch: c19Fetcher{c19Profile()},
 			Sym:   c19Sym{},
 			UI:    s.ui,
